@@ -11,6 +11,6 @@ CONSTANTS
   QTY = {1, 2, 3}
   BUNDLE = {"lim", "mkt"}
   NS = {1, 2, 3, 4}
-  SHUT = {9000, 9001, 9002, 9003, 0, 50, 100, 150, 200, 250}
+  SHUT = {9000, 9001, 9002, 9003, 9004, 9005, 9006, 9007, 9008, 9009, 9010, 9011, 0, 50, 100, 150, 200, 250}
 INVARIANTS WellFormed PrintScn
 CHECK_DEADLOCK FALSE
